@@ -51,7 +51,9 @@ IsKnot(n) == n \in DOMAIN Prog.knots
 (*   counters), turn (turn index, -1 before the first choice)              *)
 (*   st     "run" | "wait" (choices offered) | "end" (END / out of content)*)
 (*          | "done" (DONE with nothing pending)                           *)
-(*   err    "" or the kind of runtime error                                *)
+(*   err    "" or the kind of runtime error that has stopped the story and *)
+(*          has not been handed to a handler yet                            *)
+(*   warns  the warnings raised and not handed to a handler yet             *)
 (*   ret    value returned by the function call that just finished         *)
 (***************************************************************************)
 Frame(b) == [b |-> b, i |-> 1]
@@ -65,7 +67,7 @@ VarMap == [n \in {Prog.globals[i].n : i \in 1..Len(Prog.globals)} |->
 Start ==
   [ th |-> << <<Act("root", Prog.root)>> >>, out |-> <<>>, ch |-> <<>>,
     vars |-> [n \in DOMAIN VarMap |-> Prog.globals[VarMap[n]].v],
-    cnt |-> <<>>, tof |-> <<>>, seqc |-> <<>>, turn |-> -1, st |-> "run", err |-> "", ret |-> [t |-> "void"],
+    cnt |-> <<>>, tof |-> <<>>, seqc |-> <<>>, turn |-> -1, st |-> "run", err |-> "", warns |-> <<>>, ret |-> [t |-> "void"],
     safe |-> FALSE,
     dirty |-> {},         \* globals that were given a different value since the current continue began (for observers)
     touched |-> {},       \* globals that were assigned at all since then
@@ -105,7 +107,8 @@ Halted(t) == IF t = <<>> THEN t
 Halt(m) == [m EXCEPT !.th = << Halted(Head(m.th)) >>]
 \* END: the call stack is reset to a single element without position and without temporaries
 Fresh == << <<[kind |-> "root", fr |-> <<>>, temps |-> <<>>, fnStart |-> 0, fnStart0 |-> 0, cont |-> [mode |-> "drop"], prev |-> <<>>]>> >>
-Fail(m, kind) == [m EXCEPT !.err = kind, !.st = "end", !.th = Fresh]
+\* a runtime error: the message is kept, the story is forced to its end (call stack reset, choices dropped)
+Fail(m, kind) == [m EXCEPT !.err = kind, !.st = "end", !.th = Fresh, !.ch = <<>>]
 
 (***************************************************************************)
 (* Expressions (pure except function calls, which are run by the machine:  *)
@@ -116,7 +119,7 @@ LookupVar(m, n) ==
   LET a == CurAct(m) IN
   IF n \in DOMAIN a.temps THEN a.temps[n]
   ELSE IF n \in DOMAIN m.vars THEN m.vars[n]
-  ELSE Err("unknown variable")
+  ELSE I(0)          \* (a temporary whose declaration was never executed reads as 0 - with a warning, see Unknown)
 
 RECURSIVE Eval(_, _)
 Eval(m, e) ==
@@ -128,6 +131,14 @@ Eval(m, e) ==
     [] e.k = "turns" -> I(m.turn + 1)
     [] e.k = "u" -> Unary(e.op, Eval(m, e.a))
     [] e.k = "b" -> Binary(e.op, Eval(m, e.a), Eval(m, e.b))
+
+\* the variables read by e that do not exist (yet), in evaluation order: each read raises a warning
+RECURSIVE Unknown(_, _)
+Unknown(m, e) ==
+  CASE e.k = "var" -> IF e.n \in DOMAIN CurAct(m).temps \/ e.n \in DOMAIN m.vars THEN <<>> ELSE <<"novar">>
+    [] e.k = "u" -> Unknown(m, e.a)
+    [] e.k = "b" -> Unknown(m, e.a) \o Unknown(m, e.b)
+    [] OTHER -> <<>>
 
 \* how a value is printed
 ValChars(v) ==
@@ -282,8 +293,9 @@ ExtCall(m, s) ==
 \* one statement
 Exec(m, s) ==
   CASE s.k = "s"   -> Advance(Emit(m, O!T(s.v)))
-    [] s.k = "p"   -> LET v == Eval(m, s.e) IN
-                      IF v.t = "error" THEN Fail(m, v.v) ELSE Advance(Emit(m, O!T(ValChars(v))))
+    [] s.k = "p"   -> LET v == Eval(m, s.e)
+                          mw == [m EXCEPT !.warns = m.warns \o Unknown(m, s.e)] IN
+                      IF v.t = "error" THEN Fail(mw, v.v) ELSE Advance(Emit(mw, O!T(ValChars(v))))
     [] s.k = "g"   -> Advance(Emit(m, O!GLUE))
     [] s.k = "nl"  -> Advance(Emit(m, O!NL))
     [] s.k = "tag" -> Advance(Emit(m, O!TAG(StrOf(m, s.b, 1).text)))
